@@ -1,5 +1,7 @@
 //! Build runner, choosing and executing tasks as determined by out of date inputs.
 
+#[cfg(n2_verif)]
+use crate::verif::shim as std;
 use crate::{
     canon::{canonicalize_path, to_owned_canon_path},
     db,
@@ -144,6 +146,8 @@ impl BuildStates {
         // This function is called on all state transitions.
         // We get 'prev', the previous state, and 'state', the new state.
         let prev = std::mem::replace(&mut self.states[id], state);
+        #[cfg(n2_verif)]
+        crate::verif::on_state(id, build, prev, state);
 
         // We skip user-facing counters for phony builds.
         let skip_ui_count = build.cmdline.is_none();
